@@ -14,6 +14,9 @@ mod types;
 mod utils;
 mod verify;
 
+#[cfg(nervosnetwork_ckb_light_client_verif)]
+mod verif_hooks;
+
 use config::AppConfig;
 use env_logger::{Builder, Env, Target};
 
